@@ -137,7 +137,7 @@ def run(rep, tier, seed):
     rng = random.Random(seed + 19)
     events, recipes = [], {}
     n = 1 if tier == "quick" else 30
-    for _ in range(2500 * n):
+    for _ in range(5000 * n):
         op, spec, label = inject(rng)
         try:
             lit = to_lit(spec)
@@ -150,7 +150,7 @@ def run(rep, tier, seed):
         rep.note_case(repr(lit) + op)
     # structural fuzz of well-formed specs
     base_events, base_rec = [], {}
-    c10.make_events(rep, rng, 600 * n, base_events, base_rec, with_dsl=False)
+    c10.make_events(rep, rng, 1000 * n, base_events, base_rec, with_dsl=False)
     from harness.props import c16
     c16.cond_specs(rep, rng, 400 * n, base_events, base_rec)
     rep.evaluations -= len(base_events)
